@@ -24,6 +24,18 @@ WITNESS_SEARCH = {
     'dominance_checker': ('dominance_fuzz', ['$SEED', 60000]),
 }
 
+# Native regression replays: the concrete witnesses of the genuine defects that were repaired (known_findings.json, 'fixed').
+# They are re-run by the checks of the property concerned: a fixed entry suppresses nothing, and if the defect returns the
+# replay fails on the real code and the check reports the violation with that input -- whatever the verifier can or cannot
+# say about the changed text.  (case, args, what it shows)
+REGRESSION_REPLAYS = {
+    'C04': [('par_with_nb_threads', ['1', '3'], 'custom(.., 1).with_nb_threads(3): maximize() must return (no worker crash / lost wake-up)')],
+    'C05': [('par_abort_bounds', ['2', '1', '2'], 'parallel, 2 threads, cutoff at the first poll: optimum <= best_upper_bound()'),
+            ('par_abort_inflight', [], 'forced schedule: abort while a larger upper bound is in flight on another worker: optimum <= best_upper_bound()')],
+    'C11': [('nodup_fringe', ['push', '7', '1', '5', '10', 'push', '7', '2', '7', '9', 'pop', 'pop'], 'equal states at different depths must not be coalesced')],
+    'C17': [('gap', ['0', '0'], 'gap(0, 0) must be 0, not NaN'), ('gap', ['-5', '5'], 'gap(-5, 5) must not be 0')],
+}
+
 PROPS = {
     'C01': {
         'units': ['seq_solver'],
